@@ -1,5 +1,6 @@
 """C05 — secure floating-point arithmetic approximates float arithmetic."""
 import random
+import asyncio
 import math
 from fractions import Fraction as Fr
 
@@ -156,11 +157,24 @@ def run(shard, rec):
         if not rec.wants(case):
             continue
 
-        async def program(mpc, pid, l=l, ops=ops, xs=xs, ys=ys):
+        async def program(mpc, pid, l=l, ops=ops, xs=xs, ys=ys, ci=ci):
             secflt = mpc.SecFlt(l)
             a = mpc.input([secflt(v if pid == 0 else 0.0) for v in xs], senders=0)
             b = mpc.input([secflt(v if pid == m - 1 else 1.0) for v in ys], senders=m - 1)
             rs = [apply(op, a[i], b[i]) for i, op in enumerate(ops)]
+            if ci % 2:
+                # all outputs pending at once (also to single receivers), awaited later and in another order, one party yielding in between
+                futs = [mpc.output(r) for r in rs]
+                extra = [mpc.output(rs[0], receivers=[0]), mpc.output(rs[1], receivers=[m - 1])]
+                if pid == ci % m:
+                    for _ in range(1 + ci % 3):
+                        await asyncio.sleep(0)
+                e1 = await extra[1]
+                out = [await f for f in reversed(futs)][::-1]
+                e0 = await extra[0]
+                if (pid == 0 and e0 != out[0]) or (pid == m - 1 and e1 != out[1]) or (pid != 0 and e0 is not None) or (pid != m - 1 and e1 is not None):
+                    out.append(('single-receiver outputs', e0, e1))
+                return out
             out = []
             for r in rs:
                 out.append(await mpc.output(r))
@@ -171,6 +185,10 @@ def run(shard, rec):
         if res is None:
             rec.violation(f'{what} ops {ops}: run did not complete {w.status} {[r for r in w.results() if r[0] == "EXC"][:1]} {w.error_summaries()[:1]}', {'mechanism': 'no-completion', 'l': l}, {'case': case}, case=case)
             continue
+        for pid_, r_ in enumerate(res):
+            if len(r_) > len(ops):
+                rec.violation(f'{what} ops {ops}: party {pid_}: outputs to single receivers disagree with the outputs to all: {r_[-1]}', {'mechanism': 'single-receiver-output', 'l': l}, {'case': case}, case=case)
+        res = [r_[:len(ops)] for r_ in res]
         if any(r != res[0] for r in res):
             rec.violation(f'{what} ops {ops}: parties obtained different values {res[:2]}', {'mechanism': 'parties-disagree', 'l': l}, {'case': case}, case=case)
         for op, x, y, got in zip(ops, xs, ys, res[0]):
